@@ -71,10 +71,14 @@ class DBusMessage :
 #            if not a.startswith('raw'):
 #                print '    %s = %s' % (a.ljust(15), str(getattr(self,a)))
 
-    def _marshal(self, newSerial=True, oobFDs=None):
+    def _marshal(self, newSerial=True, oobFDs=None, rawBody=None):
         """
         Encodes the message into binary format. The resulting binary message is
         stored in C{self.rawMessage}
+
+        @param rawBody: already encoded body (in the byte order given by
+            C{self.endian}) to use as is instead of encoding C{self.body};
+            used when a received message is passed on
         """
         flags = 0
 
@@ -88,7 +92,9 @@ class DBusMessage :
         _headerAttrs = self._headerAttrs
 
         # marshal body before headers to know if the 'unix_fd' header is needed
-        if self.signature:
+        if rawBody is not None:
+            binBody = rawBody
+        elif self.signature:
             binBody = b''.join(
                 marshal.marshal(
                     self.signature,
@@ -391,6 +397,8 @@ def parseMessage(rawMessage, oobFDs):
     m.rawPadding = rawMessage[nheader: nheader + npad]
 
     m.rawBody = rawMessage[nheader + npad:]
+
+    m.endian = rawMessage[0]
 
     m.expectReply = not (hval[2] & 0x1)
     m.autoStart = not (hval[2] & 0x2)
